@@ -137,6 +137,27 @@ for _k in SO_KINDS:
         bind={"c[1]": ("state", "c_z", "Int", "z"), "c[2]": ("state", "c_y", "Int", "y"), "c[3]": ("state", "c_x", "Int", "x")},
         outputs=["c_z", "c_y", "c_x"]))
 
+# ---- C03: the two decision trees that choose the symmetry operation (cylindrical branch).  Result: (class index, view180,
+# axial_pos_shift, z_shift, q) with the class index = position in SO_CLASSES; a class that does not take an argument gets 0.
+SO_CLASSES = ["TrivialSymmetryOperation"] + ["SymmetryOperation_PET_CartesianGrid_" + k for k in SO_KINDS]
+_SO_ZQ = [k for k in SO_KINDS if k.endswith("_zq")]
+SO_NEW = {"TrivialSymmetryOperation": (0, [])}
+for _i, _k in enumerate(SO_KINDS):
+    SO_NEW["SymmetryOperation_PET_CartesianGrid_" + _k] = (_i + 1, [1, 2] if _k == "z_shift" else ([0, 1, 2, 3] if _k in _SO_ZQ else [0, 1, 2]))
+_TREE = dict(file=SYM + ".inl", header="stir/recon_buildblock/DataSymmetriesForBins_PET_CartesianGrid.h",
+             cls="DataSymmetriesForBins_PET_CartesianGrid", mode="if_string", if_literal="Cylindrical", if_callee="get_scanner_geometry",
+             new_classes=SO_NEW, new_slots=4, outputs=["$return"], ret="Int")
+_TREE_BIND = {"find_transform_z(abs(segment_num), do_symmetry_shift_z ? 0 : axial_pos_num)": ("param", "tz"),
+              "num_planes_per_axial_pos[segment_num]": ("param", "nppa_seg")}
+KERNELS.append(dict(_TREE, name="find_sym_op_bin0", function="find_sym_op_bin0",
+    params=[("num_views", "Int"), ("do_symmetry_90degrees_min_phi", "Bool"), ("do_symmetry_180degrees_min_phi", "Bool"),
+            ("do_symmetry_swap_segment", "Bool"), ("do_symmetry_shift_z", "Bool"), ("tz", "Int"), ("nppa_seg", "Int"),
+            ("segment_num", "Int"), ("view_num", "Int"), ("axial_pos_num", "Int")], bind=_TREE_BIND))
+KERNELS.append(dict(_TREE, name="find_sym_op_general_bin", function="find_sym_op_general_bin",
+    params=[("num_views", "Int"), ("do_symmetry_90degrees_min_phi", "Bool"), ("do_symmetry_180degrees_min_phi", "Bool"),
+            ("do_symmetry_swap_segment", "Bool"), ("do_symmetry_swap_s", "Bool"), ("do_symmetry_shift_z", "Bool"), ("tz", "Int"),
+            ("nppa_seg", "Int"), ("s", "Int"), ("segment_num", "Int"), ("view_num", "Int"), ("axial_pos_num", "Int")], bind=_TREE_BIND))
+
 
 class Reject(Exception):
     """the kernel leaves the supported subset / cannot be located"""
@@ -269,6 +290,12 @@ def unparse(n):
         return unparse(ch[0]) + " " + n.get("opcode", "?") + " " + unparse(ch[1])
     if k == "UnaryOperator":
         return (unparse(ch[0]) + n.get("opcode", "?")) if n.get("isPostfix") else (n.get("opcode", "?") + unparse(ch[0]))
+    if k == "ConditionalOperator" and len(ch) == 3:
+        return unparse(ch[0]) + " ? " + unparse(ch[1]) + " : " + unparse(ch[2])
+    if k == "StringLiteral":
+        return str(n.get("value"))
+    if k == "CXXBindTemporaryExpr" and ch:
+        return unparse(ch[0])
     return "<%s>" % k
 
 
@@ -693,6 +720,28 @@ class Translator:
                 return [line]
             if "$return" not in self.spec["outputs"]:
                 self.reject(n, "`return <value>` in a kernel whose contract has no `$return` output")
+            if self.spec.get("new_classes") is not None:
+                # `return new C(a, b, …)`: the result is (index of class C, slot 0, …, slot 3); the contract says, per class, which
+                # constructor argument goes to which slot (slots without an argument are 0)
+                e = strip_casts(ch[0])
+                while e.get("kind") == "ImplicitCastExpr" and kids(e):
+                    e = strip_casts(kids(e)[0])
+                if e.get("kind") != "CXXNewExpr" or not kids(e) or kids(e)[0].get("kind") != "CXXConstructExpr":
+                    self.reject(n, "`return` of something that is not `new Class(args)`")
+                ctor = kids(e)[0]
+                cname = ctor.get("type", {}).get("qualType", "").replace("stir::", "")
+                if cname not in self.spec["new_classes"]:
+                    self.reject(n, "`new %s`: class not in the contract %s" % (cname, sorted(self.spec["new_classes"])))
+                idx, slots = self.spec["new_classes"][cname]
+                args = [a for a in kids(ctor) if a.get("kind") != "CXXDefaultArgExpr"]
+                if len(args) != len(slots):
+                    self.reject(n, "`new %s` with %d arguments, the contract expects %d" % (cname, len(args), len(slots)))
+                vals = ["0"] * self.spec["new_slots"]
+                for a, sl in zip(args, slots):
+                    vals[sl] = self.as_int(self.expr(a))[0]
+                line = pad + "return (" + ", ".join([str(idx)] + vals) + ")"
+                self.assigned = ALL
+                return [line]
             rv = self.conv(self.expr(ch[0]), self.spec["ret"])
             line = pad + "return " + self.ret_tuple(rv)
             self.assigned = ALL
@@ -701,6 +750,8 @@ class Translator:
 
     # ---- whole kernel
     def out_type(self):
+        if self.spec.get("new_classes") is not None:
+            return " × ".join(["Int"] * (1 + self.spec["new_slots"]))
         tys = []
         for o in self.spec["outputs"]:
             tys.append(self.spec["ret"] if o in ("$return", "$expr") else self.state[o])
@@ -827,6 +878,27 @@ def translate_kernel(spec, docs, field_docs, repo):
         # reported line: the marker statement itself, or the first statement when the kernel starts at a declaration
         line = loc_of(nodes[0] if (mode == "stmt" or spec.get("start_decl")) else [s for s in nodes if pred(s)][0])[1]
         lines = tr.translate_body(nodes)
+    elif mode == "if_string":
+        # then-branch of the top-level `if (<expr> == "<literal>")` of the function body (e.g. the branch for one scanner geometry)
+        cands = []
+        for st in kids(body):
+            if st.get("kind") == "IfStmt":
+                lits = []
+                find_all(kids(st)[0], "StringLiteral", lits)
+                mems = []
+                find_all(kids(st)[0], "MemberExpr", mems)
+                if any(str(l.get("value")) == '"%s"' % spec["if_literal"] for l in lits) and any(m.get("name") == spec["if_callee"] for m in mems):
+                    cands.append(st)
+        if not cands:
+            raise Reject("kernel %s: no top-level `if (… %s … == \"%s\")` in %s" % (spec["name"], spec["if_callee"], spec["if_literal"], spec["function"]))
+        st = cands[0]     # the first one: later ones are unreachable for this value unless the first falls through (it must return on every path)
+        then = kids(st)[1]
+        nodes = kids(then) if then.get("kind") == "CompoundStmt" else [then]
+        line = loc_of(st)[1]
+        spec = dict(spec, mode="function")
+        tr.spec = spec
+        lines = tr.translate_body(nodes)
+        what = "then-branch of `if (… == \"%s\")`" % spec["if_literal"]
     elif mode == "cond_else":
         rets = []
         find_all(body, "ReturnStmt", rets)
